@@ -10,7 +10,7 @@ from fractions import Fraction
 from ..cfg import CFG
 from ..consteval import ConstEval, EnumMember, FuncEval, NotConst, Sym
 from ..core import AnalysisError, own_nodes, short, unparse
-from ..rules import defs, exa, lint
+from ..rules import defs, exa, lint, shape
 from . import common
 
 EXPLANATION = (
@@ -278,13 +278,6 @@ def check_block_filter(ctx):
               f"{what}: the guard on tti.{field} skips {sorted(hex(x) for x in skipped)[:8]} (expected {sorted(hex(x) for x in want_skip)[:8]}...), "
               f"dominates all model writes: {dominated}")
   ctx.extra["finite_domain_evaluations"] = ctx.extra.get("finite_domain_evaluations", 0) + 258
-  # extension blocks accumulate: EBN != 0xFF returns before the model is touched
-  ext = [n for n in own_nodes(f.node) if isinstance(n, ast.If) and "tti.EBN" in unparse(n.test) and "255" in unparse(n.test).replace("0xFF", "255").replace("0xff", "255")
-         and isinstance(n.test, ast.Compare) and isinstance(n.test.ops[0], ast.NotEq) and n.body and isinstance(n.body[-1], ast.Return)]
-  ok = bool(ext) and all(cfg.node_of(ext[0]) in dom.get(w, ()) for w in writes)
-  ctx.check(ok, "FIN-blocks", f"{f.qualname}|extension blocks accumulate", ctx.where(f.module, f.node),
-            "blocks with EBN != FFh only extend the text field and return before the model is written",
-            "extension blocks (EBN != FFh) no longer return before the model is written: a multi-block subtitle is emitted in pieces")
 
 
 def check_times(ctx):
@@ -329,6 +322,13 @@ def run(ctx):
   check_classifiers(ctx)
   check_block_filter(ctx)
   check_times(ctx)
+  ptb = ix.func("ttconv.stl.datafile:DataFile.process_tti_block")
+  def _is_model_write(n):
+    return n.kind == "stmt" and any(isinstance(c, ast.Call) and isinstance(c.func, ast.Attribute) and c.func.attr in ("push_child", "set_begin", "set_end", "set_region", "to_model")
+                                    for c in ast.walk(n.ast))
+  shape.check_flag_reset(ctx, ptb, "is_in_extension", {"tti.EBN != 255"}, "the extension-block accumulation state of a finished subtitle",
+                         final_only=_is_model_write, final_only_what="extension blocks (EBN != FFh) only extend the text field; the model is written once, for the final block")
+  shape.check_region_key(ctx, ix.func("ttconv.stl.datafile:_get_region_from_model"))
   fs = common.funcs(ctx, ["ttconv.stl.datafile", "ttconv.stl.reader", "ttconv.stl.tf"])
   n = exa.check_exactness(ctx, fs, rule="EXA", exempt=common.EXA_EXEMPT, trunc_scope=common.time_trunc_scope(ctx))
   ctx.floor("EXA", "model time sinks in the STL reader", n, 2)
